@@ -102,6 +102,10 @@ def real(case):
     if k == 'plain':
         r = quiet(muxreal.run_plain, case['term'], case['items'], prelude=case.get('prelude'), share=case.get('share', False))
         r['chunks'] = muxreal.trunc_chunks(r['chunks'])
+        if case.get('tramp'):
+            t = quiet(muxreal.run_plain_tramp, case['term'], case['items'])
+            r['tramp'] = muxreal.trunc_chunks(t['chunks']) if 'chunks' in t else None
+            r['tramp_raised'] = t.get('raised') or t.get('harness_exc')
         return r
     raise ValueError(k)
 
@@ -168,12 +172,28 @@ def with_preludes(cases, rng, frac=0.12, share_frac=0.05, stores_frac=0.06):
             p = add_shared(c, rng)
             if p is not None:
                 yield p
+        if c.get('kind') == 'plain' and not c.get('prelude') and not c.get('share') and rng.random() < 0.15:
+            # the same plain case with a source that pushes from inside the current-thread scheduler (rx.from_)
+            t = dict(c)
+            t['tramp'] = True
+            yield t
 
 
 def prelude_violation(case, r):
     """oracle for a case with a prelude, judging the real code alone: the second subscription must emit what a
     fresh pipeline object emits on the same items (outputs of a lifetime / of a sequence depend on its own items only)"""
     if 'harness_exc' in r:
+        return None
+    if case.get('tramp'):
+        # judged against the Subject-driven run of the same code: what is emitted while an item is processed does not depend on
+        # who pushes the items
+        if r.get('tramp') is None or r.get('tramp_raised') or r.get('raised') or has_fatal(r['chunks']) or has_fatal(r['tramp']):
+            return None
+        for i, (a, b) in enumerate(zip(r['tramp'], r['chunks'])):
+            if strict_ne(a, b):
+                return ('%s over %s on a plain observable whose source pushes from inside the current-thread scheduler (rx.from_) emits %s '
+                        'while item %d is processed; pushed item by item from outside it emits %s'
+                        % (json.dumps(case['term'])[:200], case['items'], json.dumps(a)[:200], i - 1, json.dumps(b)[:200]))
         return None
     if case.get('share') and not case.get('prelude'):
         sep = dict(case)
